@@ -166,16 +166,15 @@ func runCase(c *Case) *Result {
 			}
 			w.rs.solo = true
 			w.rs.soloTask = t
-			zzsim.SetMode(zzsim.ModeCount)
-			done := make(chan struct{})
+			// Run it under the simulator as a single task: nothing can preempt
+			// it, but a lock it left held (an unlock skipped on a panic or
+			// Goexit path) is then noticed as a deadlock or lock-discipline
+			// failure instead of hanging the process on the real mutex.
 			prog := w.program(t, wantRaw)
-			go func() {
-				defer close(done)
-				prog()
-			}()
-			<-done
-			solo += zzsim.Steps()
-			zzsim.SetMode(zzsim.ModeOff)
+			InReference = true
+			st1 := zzsim.Run(zzsim.Config{Strategy: zzsim.StratReplay, Budget: 1 << 32}, []func(){func() { remap(t); prog() }})
+			InReference = false
+			solo += st1.Steps
 		}
 		res.SoloSteps = solo
 	}
@@ -263,6 +262,12 @@ func runCase(c *Case) *Result {
 	}
 	return res
 }
+
+// InReference is true while a task's sequential reference is being computed.
+var InReference bool
+
+// remap tells the world which task the single simulated task stands for.
+func remap(t int) {}
 
 // refCache keeps the sequential reference of the case executed last, for the
 // bounded systematic search that runs one case under many schedules.
